@@ -70,12 +70,24 @@ def part_a(facts, res):
         if inner is None:
             raise RuntimeError("message loop (Iterator::next header) not found in run")
         state["inner"] = inner
+        # the pause flag, by role: the named bool local of run that is assigned inside the message loop (whatever it is called)
         paused_local = c["names"].get("is_paused")
+        if paused_local is None:
+            cands_ = set()
+            for b_ in c["loops"][inner]:
+                for s_ in body["blocks"][b_]["st"]:
+                    if s_["k"] == "assign" and not s_["p"]["p"]:
+                        loc_ = body["locals"][s_["p"]["l"]]
+                        if loc_.get("n") and ip.types[loc_["ty"]]["k"] == "bool":
+                            cands_.add(s_["p"]["l"])
+            if len(cands_) == 1:
+                paused_local = cands_.pop()
         state["paused_local"] = paused_local
 
         def at_inner(ip_, st, fr, n):
-            v = st.mem.get(("f", fr.fid, paused_local))
-            st.add_eff(("paused_at", n, v.bits[0] if isinstance(v, Int) else None))
+            if paused_local is not None:
+                v = st.mem.get(("f", fr.fid, paused_local))
+                st.add_eff(("paused_at", n, v.bits[0] if isinstance(v, Int) else None))
             if n >= 2:
                 return "stop"
             return "continue"
